@@ -171,8 +171,8 @@ Section Codec.
      server side
      ================================================================================================ *)
   (* s_max: MaxRequestBodySize (int64); s_algs: CompressionAlgorithms (None = nil slice);
-     s_custom: WithDecoder(key, dec) options in order, dec given by identifier *)
-  Record scfg := { s_max : Z; s_algs : option (list string); s_custom : list (string * N) }.
+     s_custom: WithDecoder(key, dec) options in order, dec given by identifier (None = a nil func) *)
+  Record scfg := { s_max : Z; s_algs : option (list string); s_custom : list (string * option N) }.
 
   Definition default_max : Z := 20 * 1024 * 1024.
   Definition default_algs : list string := [s_empty; s_gzip; s_zstd; s_zlib; s_snappy; s_deflate; s_lz4].
@@ -183,19 +183,23 @@ Section Codec.
   Definition eff_algs (sc : scfg) : list string :=
     match sc.(s_algs) with None => default_algs | Some l => l end.
 
-  (* a slot of the decoder map: a nil func (name without available decoder), the "" decoder,
-     one of the library readers, a custom decoder *)
-  Inductive slot := SNil | SIdent | SCodec (c : codec) | SCustom (i : N).
+  (* a slot of the decoder map: a nil func, the "" decoder, one of the library readers, a custom
+     decoder (None = WithDecoder(key, nil)) *)
+  Inductive slot := SNil | SIdent | SCodec (c : codec) | SCustom (i : option N).
 
-  (* var availableDecoders: map lookup, zero value (nil func) when absent *)
-  Definition available (name : string) : slot :=
-    if String.eqb name s_empty then SIdent
-    else if String.eqb name s_gzip then SCodec CGzip
-    else if String.eqb name s_zstd then SCodec CZstd
-    else if String.eqb name s_zlib then SCodec CZlib
-    else if String.eqb name s_snappy then SCodec CSnappy
-    else if String.eqb name s_lz4 then SCodec CLz4
-    else SNil.
+  (* var availableDecoders: the two-value map lookup  decoder, ok := availableDecoders[name] *)
+  Definition available (name : string) : option slot :=
+    if String.eqb name s_empty then Some SIdent
+    else if String.eqb name s_gzip then Some (SCodec CGzip)
+    else if String.eqb name s_zstd then Some (SCodec CZstd)
+    else if String.eqb name s_zlib then Some (SCodec CZlib)
+    else if String.eqb name s_snappy then Some (SCodec CSnappy)
+    else if String.eqb name s_lz4 then Some (SCodec CLz4)
+    else None.
+
+  (* the one-value lookup  availableDecoders[name]: zero value (nil func) when absent *)
+  Definition available_or_nil (name : string) : slot :=
+    match available name with Some sl => sl | None => SNil end.
 
   (* Go map as an association list: the newest binding is in front *)
   Definition tbl := list (string * slot).
@@ -206,10 +210,12 @@ Section Codec.
     | (k', v) :: r => if String.eqb k k' then Some v else tget r k
     end.
 
-  (* httpContentDecompressor: for _, dec := range enableDecoders { ... } *)
+  (* httpContentDecompressor: for _, dec := range enableDecoders {
+       if decoder, ok := availableDecoders[dec]; ok { enabled[dec] = decoder }    (a name without decoder is left out)
+       if dec == "deflate" { enabled["deflate"] = availableDecoders["zlib"] } } *)
   Definition enable_one (m : tbl) (d : string) : tbl :=
-    let m1 := tset m d (available d) in
-    if String.eqb d s_deflate then tset m1 s_deflate (available s_zlib) else m1.
+    let m1 := match available d with Some sl => tset m d sl | None => m end in
+    if String.eqb d s_deflate then tset m1 s_deflate (available_or_nil s_zlib) else m1.
 
   (* ... for key, dec := range decoders { d.decoders[key] = dec } *)
   Definition decoders (sc : scfg) : tbl :=
@@ -223,7 +229,7 @@ Section Codec.
   (* what the client gets / what the innermost handler is given *)
   Inductive sout :=
   | Rejected (status : Z)                            (* errHandler(w, r, msg, status): handler not run *)
-  | Panicked                                         (* nil decoder func called: handler not run *)
+  | Panicked                                         (* a nil decoder func is called: handler not run *)
   | Handled (ce : list string) (cl : Z) (s : stream). (* handler runs: Content-Encoding values it sees,
                                                          r.ContentLength, and its body *)
 
@@ -233,7 +239,8 @@ Section Codec.
     | SNil => None
     | SIdent => Some DNone
     | SCodec c => Some (dec c body)
-    | SCustom i => Some (cdec i body)
+    | SCustom None => None                           (* WithDecoder(key, nil) *)
+    | SCustom (Some i) => Some (cdec i body)
     end.
 
   (* maxRequestBodySizeInterceptor ; decompressor.ServeHTTP ; handler *)
@@ -281,7 +288,8 @@ Section Codec.
     | SNil => None
     | SIdent => Some LNone
     | SCodec c => Some (ldec c)
-    | SCustom i => Some (lcdec i)
+    | SCustom None => None
+    | SCustom (Some i) => Some (lcdec i)
     end.
 
   Definition lserver (sc : scfg) (ldec : codec -> ldres) (lcdec : N -> ldres) (ce : list string) (n cl : Z) : lsout :=
